@@ -322,6 +322,8 @@ def check_helpers(prop, tier, seed, work, kind):
                 "-traces", "4" if tier == "quick" else "20"]
         if tier == "quick":
             args += ["-limit", "2"]
+        if kind == "klist" and name == "multi":
+            args += ["-lists", "m,n"]    # n: key statement "y x" (not in lexical order), both keys of one type
         r = run_replay(bindir, h, "helpers", args, work, name)
         if r["evaluated"] == 0:
             raise Infra("replay of %s/%s evaluated nothing" % (kind, name))
@@ -486,6 +488,51 @@ def check_restrict(tier, seed, work):
     return cov, r.get("violations") or []
 
 
+CODEC_CFG = """SPECIFICATION Spec
+CONSTANTS
+  Mode = "%s"
+INVARIANT CanonicalRoundTrip
+INVARIANT VerdictOK
+CONSTRAINT Emit
+"""
+
+
+def check_codec(prop, tier, seed, work, modes):
+    """C18 (modes json,tv) / C16 (mode key): Codec.tla classifies every (leaf type, input class) /
+    lists every (key type, value class); each case is concretised for every leaf / list of that
+    type in the corpus and run through the real Unmarshal / SetNode / GetNode / DeleteNode."""
+    cfgs = ["us", "cs"] if tier == "quick" else ["us", "uw", "cs", "cw", "co"]
+    h, bindir = vf.prepare(work, cfgs)
+    states = trans = 0
+    outs = []
+    for m in modes:
+        mc = vf.run_tlc(work, "Codec", CODEC_CFG % m, tag="codec" + m, workers=4)
+        states += mc["distinct"]
+        trans += mc["states"]
+        outs.append(mc["out"])
+    r = run_replay(bindir, h, "codec", ["-in", ",".join(outs), "-prop", prop, "-pkgs", ",".join(cfgs)], work, "codec")
+    if r["evaluated"] == 0:
+        raise Infra("codec replay evaluated nothing")
+    if prop == "C18" and not (r.get("counters") or {}).get("accepted"):
+        raise Infra("vacuous: no input was accepted")
+    for d in (r.get("drift") or [])[:10]:
+        log("SPEC-DRIFT:", d)
+    cov = dict(states=states, transitions=trans, traces_validated_against_impl=r["evaluated"], exhaustive=True,
+               samples=[dict(type="int8", json="1.5", verdict="reject"), dict(type="uint64", json="9007199254740993", verdict="denotes BIG53 exactly or error"),
+                        dict(keytype="string", key="a/b]c"), dict(keytype="uint64", key="18446744073709551615")],
+               counters=r.get("counters"), configurations=cfgs, skipped_inexpressible=r.get("skipped"), spec_drift=(r.get("drift") or [])[:20],
+               explanation=("every (leaf type, JSON value class) and (leaf type, TypedValue class) pair -- 18 leaf types x numbers at and beyond the "
+                            "type bounds, fractional, 1e300, 2^53+1, canonical and malformed strings, wrong JSON kinds, every TypedValue oneof -- is "
+                            "classified by Codec.tla as denotes-v / must-reject / unspecified; each is decoded by Unmarshal and SetNode into every "
+                            "corpus leaf of that type: must-reject inputs must fail, accepted inputs must store the denoted value and re-render to it."
+                            if prop == "C18" else
+                            "every key type (all integer widths, decimal64, string, boolean, enumeration, identityref, unions, leafref keys in the "
+                            "OpenConfig-style module) x value classes incl. type bounds and strings with '*', '/', ']', '=', spaces and non-ASCII "
+                            "letters: the key strings written by TogNMINotifications and Diff must agree and, fed to GetNode / SetNode / "
+                            "DeleteNode, address exactly that entry next to a decoy entry of the same list."))
+    return cov, r.get("violations") or []
+
+
 PIPELINES = {
     "C10": lambda tier, seed, work: check_tree("C10", tier, seed, work, "set,setll", ["SetGetFrame"]),
     "C12": lambda tier, seed, work: check_tree("C12", tier, seed, work, "delete", ["DeleteExact"]),
@@ -500,6 +547,8 @@ PIPELINES = {
     "C06": check_restrict,
     "C08": check_pathstr,
     "C09": check_pathrel,
+    "C16": lambda tier, seed, work: check_codec("C16", tier, seed, work, ["key"]),
+    "C18": lambda tier, seed, work: check_codec("C18", tier, seed, work, ["json", "tv"]),
     "C15": lambda tier, seed, work: check_helpers("C15", tier, seed, work, "omap"),
     "C34": lambda tier, seed, work: check_helpers("C34", tier, seed, work, "klist"),
     "C31": lambda tier, seed, work: check_gnmiset("C31", tier, seed, work, "unmarshal,unmarshal-extra,unmarshal-extra-ignored", ["MergeFrame"]),
